@@ -3,6 +3,7 @@
   Statements are FIXED: prove them exactly as stated (helper lemmas go above them or in Cgp/Proofs/C09.lean).
 -/
 import Cgp.GatewaySpec
+import Cgp.Toy
 namespace Cgp.Props.C09
 open Cgp Cgp.Xdr Cgp.Gateway
 
@@ -327,5 +328,45 @@ theorem operator_step (w : World) (op : Op σ) :
       have := transferOperatorship_pres _ _ _ _ hr
       exact Or.inr ⟨auths, new, rfl, this.2.2.1, this.2.2.2⟩
   | setTime t => left; rfl
+
+/-! ### non-vacuity (the model RUN in the kernel on a concrete history, toy hash) -/
+section NonVacuity
+open Cgp.Toy
+
+/-- minimum delay 10, constructed at time 100 -/
+def opsT : List (Op Unit) :=
+  [ .setTime 109, .rotate [] wsB pf0 false,            -- 9 after deployment: refused
+    .setTime 110, .rotate [] wsB pf0 false,            -- 10 after: accepted, the clock reads 110
+    .setTime 113, .rotate [] wsC pfB false,            -- inside the window: refused
+    .rotate [owner0] wsC pfB true,                     -- bypass authorised by someone who is not the operator: refused
+    .rotate [operator0] wsC pfB true,                  -- operator bypass inside the window: accepted, the clock reads 113
+    .setTime 122, .rotate [] wsD pfC false,            -- 12 after the last non-bypass rotation but 9 after the bypass: refused
+    .setTime 123, .rotate [] wsD pfC false ]           -- 10 after the bypass: accepted
+
+/-- the hypotheses of `clock_is_last_success`, `nonbypass_delay`, `bypass_needs_operator`, `success_restarts_clock` and
+    `construct_starts_clock` are satisfiable, and the delay is really enforced: with minimum delay 10, a rotation 9 after
+    deployment is refused and one 10 after is accepted; an operator bypass inside the window is accepted (not without the
+    operator) and restarts the clock, so that a non-bypass rotation 9 after THE BYPASS is refused and one 10 after is accepted. -/
+theorem clock_history_nonvacuous :
+    ∃ w0, constructed H0 owner0 operator0 [1] 10 5 [ws0] 100 = some w0 ∧
+      (∃ st evs, construct H0 owner0 operator0 [1] 10 5 [ws0] 100 = .ok (st, evs)) ∧
+      -- `nonbypass_delay`: a successful non-bypass rotation (at 110, last 100)
+      (∃ r, rotateSigners H0 V0 (run H0 V0 w0 (opsT.take 3)).1.st [] wsB pf0 false 110 = .ok r) ∧
+      -- `bypass_needs_operator` / `success_restarts_clock`: a successful bypass rotation (at 113, last 110)
+      (∃ st' evs, rotateSigners H0 V0 (run H0 V0 w0 (opsT.take 7)).1.st [operator0] wsC pfB true 113 = .ok (st', evs)) ∧
+      -- `clock_is_last_success`: its hypothesis, and both sides of its equations along the history
+      w0.st.lastRot = some 100 ∧ w0.st.minDelay = 10 ∧ w0.now = 100 ∧
+      (run H0 V0 w0 opsT).2.map gwErr =
+        [none, some .insufficientRotationDelay, none, none, none, some .insufficientRotationDelay, some .unauthorized, none,
+         none, some .insufficientRotationDelay, none, none] ∧
+      [2, 4, 6, 8, 10, 12].map (fun n => (run H0 V0 w0 (opsT.take n)).1.st.lastRot) =
+        [some 100, some 110, some 110, some 113, some 113, some 123] ∧
+      [2, 4, 6, 8, 10, 12].map (fun n => lastSuccess 100 w0.now (opsT.take n) (run H0 V0 w0 (opsT.take n)).2) =
+        [(100, 109), (110, 110), (110, 113), (113, 113), (113, 122), (123, 123)] ∧
+      (run H0 V0 w0 opsT).1.st.epoch = 4 ∧ (run H0 V0 w0 opsT).1.st.minDelay = 10 := by
+  refine ⟨_, rfl, ⟨_, _, rfl⟩, exists_ok_of_isOk _ (by decide +kernel), exists_ok_pair_of_isOk _ (by decide +kernel), ?_⟩
+  decide +kernel
+
+end NonVacuity
 
 end Cgp.Props.C09
